@@ -39,7 +39,7 @@ func c09Project(r *gen.Rand) map[string]string {
 		"src/cfg-b.js":                  "export const cfg = \"cfg-b\";\n",
 		"src/cfg.js.symlink":            "cfg-a.js",
 		"src/probe.js":                  "try { require(\"./a.js/\") } catch {}\ntry { require(\"./data.json/x\") } catch {}\n",
-		"src/entry.ts":                  "import \"./probe.js\";\nimport linked from \"linked\";\nimport { cfg } from \"./cfg.js\";\nconsole.log(linked, cfg);\nimport { a } from \"./a\";\nimport b from \"./b.js\";\nimport data from \"./data.json\";\nimport { Comp, K } from \"./comp\";\nimport pkg from \"pkg\";\nimport \"pkg/effect\";\nimport aliased from \"alias/thing\";\nimport { version } from \"helper.js\";\nconsole.log(a, b, data, Comp, new K(), pkg, aliased, version);\n",
+		"src/entry.ts":                  "const which = (globalThis as any).which || \"a\";\nimport(\"./gen/\" + which + \".js\").catch(() => {});\nimport \"./probe.js\";\nimport linked from \"linked\";\nimport { cfg } from \"./cfg.js\";\nconsole.log(linked, cfg);\nimport { a } from \"./a\";\nimport b from \"./b.js\";\nimport data from \"./data.json\";\nimport { Comp, K } from \"./comp\";\nimport pkg from \"pkg\";\nimport \"pkg/effect\";\nimport aliased from \"alias/thing\";\nimport { version } from \"helper.js\";\nconsole.log(a, b, data, Comp, new K(), pkg, aliased, version);\n",
 		"node_modules/helper.js":        "export const version = 1;\n",
 		"src/a.js":                      "export const a = \"a.js\";\n",
 		"src/b.js":                      "export default \"b-one\";\n",
@@ -59,7 +59,15 @@ func c09Project(r *gen.Rand) map[string]string {
 func c09Edit(r *gen.Rand, cur map[string]string) c09Step {
 	w := func(p, c string) c09Step { return c09Step{Write: map[string]string{p: c}} }
 	for tries := 0; tries < 20; tries++ {
-		switch r.Intn(20) {
+		switch r.Intn(22) {
+		case 20, 21: // first file in a directory whose whole listing a glob import consumed / remove it again
+			f := pickS(r, "src/gen/a.js", "src/gen/b.js")
+			if _, ok := cur[f]; ok {
+				return c09Step{Edit: "delete " + f, Del: []string{f}}
+			}
+			s := w(f, "export default \"gen-"+f+"\";\n")
+			s.Edit = "create " + f + " in a globbed directory"
+			return s
 		case 18: // retarget a symlinked package directory
 			t := "../lib-b"
 			if cur["node_modules/linked.symlink"] == t {
@@ -266,6 +274,7 @@ func c09Run(rep *Report, workdir string, class string, files map[string]string, 
 		cur[k] = v
 	}
 	writeTree(dir, cur)
+	os.MkdirAll(filepath.Join(dir, "src/gen"), 0755) // an EMPTY directory that a glob-style import lists
 	for k, v := range cur { // "<path>.symlink" entries stand for symbolic links
 		if strings.HasSuffix(k, ".symlink") {
 			os.Remove(filepath.Join(dir, k))
@@ -343,7 +352,7 @@ func c09Run(rep *Report, workdir string, class string, files map[string]string, 
 
 func init() {
 	searches["c09-history"] = func(r *gen.Rand, count int, workdir string, rep *Report) {
-		rep.Rule = "a project (TS entry, JS/TSX/JSON modules, tsconfig with jsx/paths/useDefineForClassFields, a node_modules package with main/exports/sideEffects) is built through one long-lived context; after each of 2-7 random edits (content incl. same-length, tsconfig and package.json fields, shadowing files, nearer node_modules, file<->directory, syntax error + repair, delete/recreate, rename, json named imports, retargeting a symlinked package directory and a symlinked file) ctx.Rebuild() is compared with a fresh api.Build of the same tree: output paths+bytes and diagnostics (text+location). non-trivial = a complete history"
+		rep.Rule = "a project (TS entry, JS/TSX/JSON modules, tsconfig with jsx/paths/useDefineForClassFields, a node_modules package with main/exports/sideEffects) is built through one long-lived context; after each of 2-7 random edits (content incl. same-length, tsconfig and package.json fields, shadowing files, nearer node_modules, file<->directory, syntax error + repair, delete/recreate, rename, json named imports, retargeting a symlinked package directory and a symlinked file, creating/deleting files in an initially empty directory that a glob-style import lists) ctx.Rebuild() is compared with a fresh api.Build of the same tree: output paths+bytes and diagnostics (text+location). non-trivial = a complete history"
 		for i := 0; i < count; i++ {
 			gr := r.Fork()
 			opt := pickS(gr, "fmt=esm", "fmt=esm,ms", "fmt=cjs,platform=node", "fmt=esm,splitting", "fmt=esm,sourcemap=external", "fmt=iife,mi", "fmt=esm,metafile")
